@@ -250,6 +250,17 @@ def rule_K2(ctx, R):
             if not ws:
                 continue
             nv = {id(e): norm_cell_val(p, e.get("val") or e.get("new")) for e in ws}
+            # writes performed by the Drop impl of a ThreadKey value that this function drops (a key it made with `get()` and
+            # lent out, `ThreadKey::scoped`) are Drop's own: judged there
+            in_key_drop, depth_ = set(), 0
+            for e in p.events:
+                if e["k"] == "DROP_IMPL" and e.get("adt") == KEY:
+                    depth_ += 1 if e["phase"] == "begin" else -1
+                elif depth_ > 0:
+                    in_key_drop.add(id(e))
+            ws = [e for e in ws if id(e) not in in_key_drop]
+            if not ws:
+                continue
             clears = [e for e in ws if nv[id(e)] == CLEAR]
             sets = [e for e in ws if nv[id(e)] is not None and nv[id(e)] != CLEAR]
             other = [e for e in ws if e not in clears and e not in sets]
@@ -262,11 +273,11 @@ def rule_K2(ctx, R):
             elif sets and is_drop:
                 bad = ("flag-access", "ThreadKey's Drop sets the key flag")
             elif sets:
-                built = p.kind == "ret" and p.value is not None and val_contains(p.value, lambda x: x[0] == "agg" and x[2] == KEY)
+                built = bool(p.ev("KEY_BUILT"))
                 if built and not observed_clear_then_set(p, CLEAR):
                     bad = ("test-and-set", "flag is set but success is not decided by the previous value of the flag")
-                if not any(val_contains(q.value, lambda x: x[0] == "agg" and x[2] == KEY) for q in paths if q.kind == "ret" and q.value):
-                    bad = ("set-caller", "the key flag is set by %s, which never yields a key" % f["path"])
+                if not any(q.ev("KEY_BUILT") for q in paths):
+                    bad = ("set-caller", "the key flag is set by %s, which never makes a key" % f["path"])
             if bad:
                 res.bad(Violation("K2", f["path"], bad[0], bad[1] + " (path: %s)" % p.trace()[:200], *_floc(f)))
                 break
@@ -294,4 +305,76 @@ def rule_K2(ctx, R):
     if nset == 0:
         res.bad(Violation("K2", KC, "protocol", "no entry function sets the key flag: every thread can obtain any number of keys"))
     res.need(3, "flag protocol facts")
+    return res
+
+
+def rule_K4(ctx, R):
+    res = RuleResult("K4", "a key a function makes is given up on every exit that does not hand it to the caller: on each path on "
+                           "which an entry function moves the thread's key flag out of its free state, either the made key is in the "
+                           "returned value, or the flag is put back to free later on that path - in particular on every unwinding "
+                           "exit (a panic in user code run with a key the function made itself must not leave the flag taken)")
+    F = ctx.F
+    from facts import ty_walk
+    from rules_ts import entry_fns
+    from rules_ts2 import norm_cell_val, key_flag_clear_value
+    from interp import val_contains
+    KC = ctx.A.keycell or "key::KeyCell"
+    CLEAR = key_flag_clear_value(ctx)
+    n = 0
+    for f in entry_fns(ctx):
+        paths, err, I = ctx.paths(f)
+        if err or not paths:
+            continue
+        bad = None
+        touched = False
+        for p in paths:
+            if p.kind not in ("ret", "unwind"):
+                continue
+            ws = []
+            for e in p.events:
+                if e["k"] in ("CELL_SET", "CELL_REPLACE"):
+                    t = I.optype.get(e["recv"].split(".")[0])
+                    if t is not None and any(x["k"] == "adt" and x["path"] == KC for x in ty_walk(t)):
+                        ws.append(e)
+                elif e["k"] == "KEYDROP":
+                    ws.append(e)      # a ThreadKey value is dropped: its Drop puts the flag back (K2: exactly once)
+                elif e["k"] == "CELL_GET":
+                    ws.append(e)
+            if not [e for e in ws if e["k"] in ("CELL_SET", "CELL_REPLACE")]:
+                continue
+            touched = True
+            # state of the flag as this path leaves it: the last literal write; writing `taken` over an observed `taken`
+            # (a refused get) is no change
+            taken = None
+            seen = {}
+            for e in ws:
+                if e["k"] == "KEYDROP":
+                    taken = False
+                    continue
+                if e["k"] == "CELL_GET":
+                    seen[e["recv"]] = norm_cell_val(p, e.get("val"))
+                    continue
+                nv = norm_cell_val(p, e.get("val") or e.get("new"))
+                if e["k"] == "CELL_SET" and nv not in (None, CLEAR) and seen.get(e["recv"]) not in (None, CLEAR):
+                    continue
+                if nv is None:
+                    continue
+                if nv == CLEAR:
+                    taken = False
+                elif e["k"] == "CELL_REPLACE" and norm_cell_val(p, e.get("old")) not in (None, CLEAR):
+                    pass
+                else:
+                    taken = True
+            if taken:
+                handed = p.kind == "ret" and p.value is not None and val_contains(p.value, lambda x: x[0] == "agg" and x[2] == KEY)
+                if not handed:
+                    bad = "leaves the thread's key flag taken at %s exit without handing the key to the caller (path: %s)" % (
+                        "an unwinding" if p.kind == "unwind" else "a normal", p.trace()[:300])
+                    break
+        if bad:
+            res.bad(Violation("K4", f["path"], "key-leak", bad, *_floc(f)))
+        elif touched:
+            n += 1
+            res.ok(f["path"])
+    res.need(2, "functions that write the key flag")
     return res
